@@ -726,7 +726,40 @@ theorem mem_modelValues_of_input {w : World} {ms : ModelS} {g : GId} (hg : g ∈
   rw [List.mem_append]
   left
   simp only [List.mem_flatten, List.mem_map]
-  exact ⟨_, ⟨g, hg, rfl⟩, hv⟩
+  exact ⟨_, ⟨g, hg, rfl⟩, List.mem_append_left _ hv⟩
+
+theorem mem_modelValues_of_init {w : World} {ms : ModelS} {g : GId} (hg : g ∈ ms.graphs) {v : VId}
+    (hv : v ∈ (w.graph g).inits) : v ∈ modelValues w ms := by
+  unfold modelValues
+  rw [List.mem_append]
+  left
+  simp only [List.mem_flatten, List.mem_map]
+  exact ⟨_, ⟨g, hg, rfl⟩, List.mem_append_right _ hv⟩
+
+theorem declareInits_spec (w : World) (vals : List VId) (outer : Scope)
+    (hU : ∀ a ∈ vals, ∀ b ∈ vals, (w.value a).name = (w.value b).name → (w.value a).name ≠ "" → a = b) :
+    ∀ (ins : List VId) (wd : World) (cur : Scope), ScopeOK w vals wd (cur ++ outer) → (∀ v ∈ ins, v ∈ vals) →
+    VExt wd (declareInits w (wd, cur) ins).1 ∧ (declareInits w (wd, cur) ins).1.nodes = wd.nodes ∧
+    ScopeOK w vals (declareInits w (wd, cur) ins).1 ((declareInits w (wd, cur) ins).2 ++ outer) := by
+  intro ins
+  induction ins with
+  | nil => intro wd cur h _; exact ⟨VExt.refl wd, rfl, h⟩
+  | cons v rest ih =>
+    intro wd cur h hvals
+    simp only [declareInits]
+    split
+    · exact ih wd cur h (fun x hx => hvals x (by simp [hx]))
+    · rename_i hcond
+      simp only [not_or] at hcond
+      have hpush := h.push (w.value v).name (w.value v) rfl (by
+        intro hne x hx hnm
+        left
+        have := hU x hx v (hvals v (by simp)) hnm (by rw [hnm]; exact hne)
+        rw [this])
+      have hpush' : ScopeOK w vals { wd with values := wd.values ++ [w.value v] }
+          ((((w.value v).name, wd.values.length) :: cur) ++ outer) := hpush
+      obtain ⟨a, an, b⟩ := ih _ _ hpush' (fun x hx => hvals x (by simp [hx]))
+      exact ⟨(VExt.push wd _).trans a, an, b⟩
 
 theorem optAll_all {α : Type} : ∀ {l : List (Option α)} {r : List α}, optAll l = some r →
     ∀ o ∈ l, ∃ a, o = some a := by
@@ -1102,8 +1135,17 @@ theorem deserGraphBody_spec {w : World} {ms : ModelS} {rec : DSt → Scope → G
   -- graph inputs
   have h0 := declareInputs_spec w (modelValues w ms) outer hUv (w.graph g).inputs st.w [] (by simpa using hsc)
     (fun v hv => mem_modelValues_of_input hg hv)
-  generalize hr0 : declareInputs w (st.w, []) (w.graph g).inputs = r0 at h0 hc
-  obtain ⟨e0, n0, ok0⟩ := h0
+  generalize hr00 : declareInputs w (st.w, []) (w.graph g).inputs = r00 at h0 hc
+  obtain ⟨e00, n00, ok00⟩ := h0
+  -- initializers
+  have hr00' : r00 = (r00.1, r00.2) := rfl
+  rw [hr00'] at hc
+  have hI := declareInits_spec w (modelValues w ms) outer hUv (w.graph g).inits r00.1 r00.2 ok00
+    (fun v hv => mem_modelValues_of_init hg hv)
+  generalize hr0 : declareInits w (r00.1, r00.2) (w.graph g).inits = r0 at hI hc
+  obtain ⟨eI, nI, ok0⟩ := hI
+  have e0 : VExt st.w r0.1 := e00.trans eI
+  have n0 : r0.1.nodes = st.w.nodes := by rw [nI, n00]
   -- declared outputs
   cases hdo : declareOutputs w r0 (((w.graph g).nodes.map (fun n => serOutputs w (w.node n))).flatten) with
   | none => simp [hdo] at hc
